@@ -150,6 +150,29 @@ if _ra != ["re-more", "re-top", "re-trigger"] or _rb != ["re-other"]:
 elif ends(ReA("re-top"), "xtzm") != [4] or ends(ReB("re-other"), "y7") != [2]:
     viol.append("overlapping compilation in two grammar classes: ReA('re-top') on 'xtzm' gives %r, ReB('re-other') on 'y7' gives %r"
                 % (ends(ReA("re-top"), "xtzm"), ends(ReB("re-other"), "y7")))
+# a grammar class that IMPORTS rules of another class under names spelled like core rules (both decorators): it gets rules of
+# its own under these names; the core rules stay what they are
+try:
+    import importlib
+    _misc = importlib.import_module("abnf.grammars.misc")
+
+    class ImpSrc(P.Rule):
+        pass
+
+    ImpSrc.create('blank = "_"')
+    ImpSrc.create('octal = %x30-37')
+    _core_before = {n: [ends(P.Rule(n), s) for s in (" ", "_", "8", "7", "\t")] for n in ("WSP", "DIGIT", "SP")}
+    ImpA = _misc.load_grammar_rules([("WSP", ImpSrc("blank")), ("digit", ImpSrc("octal"))])(
+        type("ImpA", (P.Rule,), {"grammar": ['imp-x = "x"']}))
+    ImpB = _misc.load_grammar_rulelist([("sp", ImpSrc("blank"))])(type("ImpB", (P.Rule,), {"grammar": 'imp-y = "y"\r\n'}))
+    _core_after = {n: [ends(P.Rule(n), s) for s in (" ", "_", "8", "7", "\t")] for n in ("WSP", "DIGIT", "SP")}
+    if _core_before != _core_after:
+        viol.append("importing rules under core-rule names through the decorators changed the core rules: %r -> %r" % (_core_before, _core_after))
+    if ends(ImpA("WSP"), "_") != [1] or ends(ImpA("digit"), "8") != "fail" or ends(ImpB("SP"), "_") != [1]:
+        viol.append("a class importing rules under core-rule names does not get them: %r %r %r"
+                    % (ends(ImpA("WSP"), "_"), ends(ImpA("digit"), "8"), ends(ImpB("SP"), "_")))
+except Exception as e:  # noqa
+    viol.append("importing rules under core-rule names raised %s" % type(e).__name__)
 before = snapshot()
 
 
